@@ -30,11 +30,17 @@ def tracer(frame, event, arg):
 from wikitextprocessor import Wtp  # noqa: E402
 from wikitextprocessor.dumpparser import analyze_and_overwrite_pages  # noqa: E402
 from pathlib import Path  # noqa: E402
+
+
+def over_paths():
+    return [Path(x) for x in extra["paths"]] if extra.get("paths") else [Path(extra["json"])]
+
+
 sys.settrace(tracer)
 
 if flow == "override":
     ctx = Wtp(db_path=db_path, quiet=True, quiet_output=True)
-    analyze_and_overwrite_pages(ctx, [Path(extra["json"])], True, None)
+    analyze_and_overwrite_pages(ctx, over_paths(), True, None)
     if extra.get("close", True):
         ctx.close_db_conn()
 elif flow == "reopen":
@@ -54,7 +60,7 @@ elif flow == "mid-override":
     for t, b in extra["mid"]:
         ctx.add_page(t, 0, b)
     ctx.db_conn.commit()
-    analyze_and_overwrite_pages(ctx, [Path(extra["json"])], True, None)
+    analyze_and_overwrite_pages(ctx, over_paths(), True, None)
     ctx.close_db_conn()
 elif flow == "backup-only":
     ctx = Wtp(db_path=db_path, quiet=True, quiet_output=True)
